@@ -215,6 +215,14 @@ def _pm_on_stream(tree):
     return [f for f in _methods(c).values() if "scan_for_metadata" in _calls(f)]
 
 
+def _pm_follow_in_callbacks(tree):
+    c = _tt(tree)
+    on = _pm_on_stream(tree)
+    if c is None or len(on) != 1:
+        return []
+    return [f for f in _methods(c).values() if f is not on[0] and any(isinstance(n, ast.Call) and isinstance(n.func, ast.Attribute) and n.func.attr == on[0].name for n in ast.walk(f))]
+
+
 def _sugar(tree):
     return _nested_transformer(tree, "resolve_syntatic_sugar")
 
@@ -393,6 +401,7 @@ ROLES: Dict[str, Tuple[str, Callable]] = {
     "process_method_call": ("func_adl.type_based_replacement", _pm_method),
     "process_method_callbacks": ("func_adl.type_based_replacement", _pm_callbacks),
     "process_method_call_on_stream_obj": ("func_adl.type_based_replacement", _pm_on_stream),
+    "type_follow_in_callbacks": ("func_adl.type_based_replacement", _pm_follow_in_callbacks),
     "resolve_generator": ("func_adl.ast.syntatic_sugar", _resolve_generator),
     "convert_call_to_dict": ("func_adl.ast.syntatic_sugar", _convert_call_to_dict),
     "_lookup_dict": ("func_adl.util_ast", _lookup_dict),
@@ -410,7 +419,7 @@ ROLES: Dict[str, Tuple[str, Callable]] = {
     "lookup_name": ("func_adl.ast.call_stack", _cs_lookup),
 }
 # names that are not underscore-prefixed but still private in effect (methods of classes nested in a function)
-INNER = {"lookup_type", "process_function_call", "process_parameterized_method_call", "process_method_call", "process_method_callbacks", "process_method_call_on_stream_obj", "resolve_generator", "convert_call_to_dict", "argument_stack", "stack_frame", "push_stack_frame", "pop_stack_frame", "define_name", "lookup_name"}
+INNER = {"type_follow_in_callbacks", "lookup_type", "process_function_call", "process_parameterized_method_call", "process_method_call", "process_method_callbacks", "process_method_call_on_stream_obj", "resolve_generator", "convert_call_to_dict", "argument_stack", "stack_frame", "push_stack_frame", "pop_stack_frame", "define_name", "lookup_name"}
 
 
 class _Rename(ast.NodeVisitor):
